@@ -181,6 +181,14 @@ pub fn gen_case(args: &Args, rng: &mut Rng, finite_inputs: bool) -> Case {
             prog = generate(rng, feat.clone());
         }
     }
+    if args.q("assign-to-variable-captured-by-another-closure") {
+        for _ in 0..6 {
+            if !crate::gens::shrink::assigns_variable_captured_by_another_closure(&prog) {
+                break;
+            }
+            prog = generate(rng, feat.clone());
+        }
+    }
     let src = prog.print();
     let n = *rng.pick(&[8usize, 16, 24, 40, 64]);
     Case { src, n, input_seed: rng.next(), finite_inputs, prog: Some(prog), expect: None, scheduler: false, path: None, origin: None, split: None }
